@@ -135,3 +135,157 @@ def o6_1_sequence_publication(mir, tier):
     res.wall_s = time.time() - t0
     if res.violations: res.status = 'violation'
     return res
+
+
+# =============================================================== lock-state obligations
+GUARDV = {'__guard': 'db'}
+
+
+def lock_summaries(mir):
+    S = lib.std_summaries(); P = S['$patterns']
+    def add(env, ev):
+        st = dict(env['$state']); st['events'] = st['events'] + [ev]; env['$state'] = st
+    def lock(se, env, pc, m):
+        # which mutex this is has been decided by the call monitor below (it sees the generic arguments of the callee)
+        st = env['$state']
+        if st.get('locking_db_mutex'):
+            return [(None, dict(GUARDV), dict(st, locking_db_mutex=False))]
+        return [(None, Opaque('guard of another mutex'), st)]
+    P[r'parking_lot::lock_api::Mutex::lock'] = lock
+    P[GUARD] = lambda se, env, pc, g: lib.one(env, Ref('$g'))
+    def drop_hook(se, env, ty, val):
+        if 'MutexGuard' in ty and isinstance(val, dict) and val.get('__guard'): add(env, ('unlock',))
+    S['$drop'] = drop_hook
+    def memdrop(se, env, pc, v):
+        if isinstance(v, dict) and v.get('__guard'): add(env, ('unlock',))
+        return lib.one(env, ())
+    P[r'(?:std|core)::mem::drop'] = memdrop
+    @lib.cps
+    def unlocked(se, env, pc, vals, cont):
+        guard, clo = vals
+        e = dict(env); add(e, ('unlock',))
+        def back(r, e2, pc2):
+            e3 = dict(e2); add(e3, ('relock',)); cont(r, e3, pc2)
+        lib.apply_closure(se, e, pc, clo, [], back)
+    P[r'parking_lot::lock_api::MutexGuard::unlocked_fair'] = unlocked
+    def reader(what, ret):
+        def f(se, env, pc, *a):
+            add(env, ('read', what)); return [(None, ret() if callable(ret) else ret, env['$state'])]
+        return f
+    P[r'DB::memtable'] = reader('memtable', lambda: Opaque('memtable'))
+    P[r'VersionSet::get_current_version'] = reader('current version', lambda: Opaque('version'))
+    P[r'VersionSet::get_prev_sequence_number'] = reader('last published sequence', lambda: BitVec('prev_seq', 64))
+    def on_call(se, env, raw, vals):
+        if re.match(r'parking_lot::lock_api::Mutex::<.*GuardedDbFields>::lock$', raw):
+            evs = env['$state']['events']
+            if held_at(evs, len(evs)):
+                if not hasattr(se, 'relocks'): se.relocks = []
+                se.relocks.append(list(evs) + [('lock',)])
+            add(env, ('lock',)); env['$state'] = dict(env['$state'], locking_db_mutex=True)
+        if 'Arc<Box<dyn MemTable>>' in raw and raw.startswith(('Option::', '<Option<')) and any(x in raw for x in ('::clone', '::is_some', '::as_ref', '::unwrap')):
+            add(env, ('read', 'immutable memtable'))
+    S['$on_call'] = on_call
+    P[r'Condvar::wait'] = lambda se, env, pc, *a: lib.one(env, ())
+    return S
+
+
+def held_at(events, idx):
+    held = False
+    for e in events[:idx]:
+        if e[0] in ('lock', 'relock'): held = True
+        elif e[0] == 'unlock': held = False
+    return held
+
+
+def run_db_method(mir, name, args_fn, on_path, loop_bound=3):
+    fn = mir.method('DB', name)
+    S = lock_summaries(mir)
+    ex = Exec(mir, S, loop_bound=loop_bound, opaque_calls_ok=True, max_paths=5000)
+    ex.prune_key = lambda env: (held_at(env['$state']['events'], len(env['$state']['events'])), tuple(sorted(set(e for e in env['$state']['events'] if e[0] == 'read'))))
+    ex.inline_filter = lambda f: f.path.startswith('db::') and ('<impl at src/db.rs' in f.path) and f.name not in ('open', 'recover', 'remove_obsolete_files')
+    env = {'$state': {'events': []}, '$db': {'abstract': True, '__ty': 'DB'}, '$g': {'abstract': True, '__ty': 'GuardedDbFields'}}
+    ex.top(fn, [Ref('$db')] + args_fn(), env, [], lambda ret, env, pc: on_path(ex, ret, env['$state']['events'], pc))
+    return ex, fn
+
+
+def o5_1_reads_under_mutex(mir, tier):
+    """DB::get and DB::new_iterator read the memtable pointer, the immutable memtable, the current version and the visible
+    sequence while the database mutex is held (the documented way to obtain one consistent cut)."""
+    res = Result('O5.1 reads capture their sources under the mutex', ['DB::get', 'DB::get::{closure#0}', 'DB::new_iterator'],
+                 'lock events from Mutex::lock / MutexGuard::unlocked_fair / guard drops; callees outside impl DB are opaque; branches on opaque values explored both ways')
+    t0 = time.time()
+    for name, args in (('get', lambda: [mir.mk_struct('ReadOptions', fill_cache=BoolVal(True), snapshot=Enum('None')), {'len': BitVec('klen', 64), 'kind': 'key'}]),
+                       ('new_iterator', lambda: [mir.mk_struct('ReadOptions', fill_cache=BoolVal(True), snapshot=Enum('None'))])):
+        seen = set()
+        def on_path(ex, ret, evs, pc, name=name):
+            for i, e in enumerate(evs):
+                if e[0] == 'read' and not held_at(evs, i):
+                    label = 'DB::%s reads the %s after releasing the database mutex' % (name, e[1])
+                    if label in seen: continue
+                    seen.add(label)
+                    res.violations.append({'label': label, 'events': [' '.join(x) for x in evs[:i + 1]], 'replay': ['sched_get_race'] if name == 'get' and e[1] == 'memtable' else None,
+                                           'confirmed_by': None if name == 'get' and e[1] == 'memtable' else {'reproduced': False, 'detail': 'no native schedule for this read'}})
+            reads = sorted(set(e[1] for e in evs if e[0] == 'read'))
+            res.cases['%s reads %s' % (name, reads)] = res.cases.get('%s reads %s' % (name, reads), 0) + 1
+        ex, fn = run_db_method(mir, name, args, on_path)
+        res.absorb(ex)
+        want = {'memtable', 'current version', 'last published sequence'}
+        got = set()
+        for kk in res.cases:
+            if kk.startswith(name + ' reads'):
+                for wv in want:
+                    if wv in kk: got.add(wv)
+        if got != want:
+            res.status = 'inconclusive'; res.reason = 'DB::%s: no path reads %s (monitor did not see the accessor calls)' % (name, sorted(want - got))
+    res.wall_s = time.time() - t0
+    if res.violations: res.status = 'violation'
+    return res
+
+
+def o5_1_confirm(v, out):
+    if out.get('_rc') != 0: return (False, 'native run failed: %s' % out.get('_stderr', '')[-300:])
+    return (out.get('race_get') == 'notfound' and out.get('later_get') == 'v',
+            'forced schedule (memtable rotated and flushed while get is in its unlocked section): get returned %s, the same get afterwards %s' % (out.get('race_get'), out.get('later_get')))
+
+
+def o9_1_no_self_deadlock(mir, tier):
+    """No public method acquires the (non-reentrant) database mutex while the executing path already holds it."""
+    res = Result('O9.1 no re-lock of the database mutex on one path', ['DB::get_descriptor (NumFilesAtLevel, Stats, SSTables)', 'DB::summarize_compaction_stats', 'DB::get_snapshot', 'DB::release_snapshot', 'DB::compact_range', 'DB::get', 'DB::new_iterator'],
+                 'lock events from Mutex::lock / unlocked_fair / guard drops along every path of each method; methods of impl DB are inlined, other callees opaque')
+    t0 = time.time()
+    dd = {'NumFilesAtLevel': lambda: Enum('NumFilesAtLevel', (BitVec('level', 64),), 'DatabaseDescriptor'), 'Stats': lambda: Enum('Stats', (), 'DatabaseDescriptor'), 'SSTables': lambda: Enum('SSTables', (), 'DatabaseDescriptor')}
+    targets = [('get_descriptor', lambda d=d: [dd[d]()], d) for d in dd]
+    targets += [('get_snapshot', lambda: [], ''), ('release_snapshot', lambda: [Opaque('snapshot')], ''),
+                ('compact_range', lambda: [{0: Enum('None'), 1: Enum('None'), '__ty': 'Range'}], ''),
+                ('get', lambda: [mir.mk_struct('ReadOptions', fill_cache=BoolVal(True), snapshot=Enum('None')), {'len': BitVec('klen', 64), 'kind': 'key'}], ''),
+                ('new_iterator', lambda: [mir.mk_struct('ReadOptions', fill_cache=BoolVal(True), snapshot=Enum('None'))], '')]
+    for name, args, variant in targets:
+        seen = set()
+        def on_path(ex, ret, evs, pc, name=name, variant=variant):
+            for i, e in enumerate(evs):
+                if e[0] == 'lock' and held_at(evs, i):
+                    label = 'DB::%s%s locks the database mutex while already holding it (self-deadlock)' % (name, '(%s)' % variant if variant else '')
+                    if label in seen: continue
+                    seen.add(label)
+                    res.violations.append({'label': label, 'events': [' '.join(x) for x in evs[:i + 1]], 'expect_hang': True,
+                                           'replay': ['descriptor_watchdog', variant] if name == 'get_descriptor' else None})
+            res.cases['%s%s' % (name, variant)] = res.cases.get('%s%s' % (name, variant), 0) + 1
+        try:
+            ex, fn = run_db_method(mir, name, args, on_path, loop_bound=9)
+        except Inconclusive as e:
+            res.status = 'inconclusive'; res.reason = '%s: %s' % (name, e); continue
+        for evs in getattr(ex, 'relocks', [])[:1]:
+            label = 'DB::%s%s locks the database mutex while already holding it (self-deadlock)' % (name, '(%s)' % variant if variant else '')
+            res.violations.append({'label': label, 'events': [' '.join(x) for x in evs], 'expect_hang': True,
+                                   'replay': ['descriptor_watchdog', variant] if name == 'get_descriptor' else None})
+        ex.bound_hits = []        # loops over opaque data are cut at the bound; lock events before the cut are still seen
+        res.absorb(ex)
+        if not res.cases.get('%s%s' % (name, variant)) and not getattr(ex, 'relocks', []):
+            res.status = 'inconclusive'; res.reason = 'no finished path for DB::%s' % name
+    res.wall_s = time.time() - t0
+    if res.violations: res.status = 'violation'
+    return res
+
+
+def o9_1_confirm(v, out):
+    return (bool(out.get('_timeout')), 'native call did not return within the watchdog time (deadlock)' if out.get('_timeout') else 'native call returned: %s' % {k: x for k, x in out.items() if not k.startswith('_')})
